@@ -61,9 +61,12 @@ def _c08(tier, seed):
     return [
         dict(name="mode", pkg="internal/mode", harness=["harness/mode/c08.go"], runs=runs, solver="z3",
              validate_runs=["H_C08_write(0,120,132)", "H_C08_write(1,0,8)", "H_C08_roundtrip(0,2,0,3)", "H_C08_roundtrip(1,2,125,128)", "H_C08_detect(4)"]),
-        dict(name="transport", pkg="internal/transport", harness=["harness/transport/c08.go"],
+        dict(name="transport", pkg="internal/transport", harness=["harness/transport/c08.go", "harness/transport/c08s.go"],
              runs=["H_C08_errcode()", "H_C08_eof(0)", "H_C08_eof(1)", "H_C08_noncode(%d)" % (28 if q else 44)], solver="z3",
              validate_runs=["H_C08_errcode()", "H_C08_noncode(28)"], covers={"H_C08_noncode": ["accepted"]}),
+        dict(name="segmentation", pkg="internal/transport", harness=["harness/transport/c08.go", "harness/transport/c08s.go"],
+             runs=["H_C08_segmented(%d,%d,%d,%d)" % (v, 2, 2 if q else 3, sg) for v in (0, 1) for sg in (0, 1, 2, 3)], solver="z3", walllimit=600, timeout=3000,
+             replay=False, validate=False, noreplay_reason="the socket's Read/Write are replaced inside the engine (conn is a concrete *net.TCPConn; natively it needs a real TCP peer)"),
     ]
 
 def _c17(tier, seed):
@@ -424,10 +427,10 @@ PROPS = {
     ),
     "C08": dict(
         jobs=_c08,
-        bounds={"quick": "abridged/intermediate frames for every word count 0..8 and 120..132 (both sides of the 127-word switch), all payload bits symbolic; unaligned lengths 0..17; sequences of 2 messages; arbitrary headers for <= 6 words; Detect on every 0..5 byte prefix; transport.ReadMsg: every 32-bit error word, frames of 0..28 bytes",
+        bounds={"quick": "abridged/intermediate frames for every word count 0..8 and 120..132 (both sides of the 127-word switch), all payload bits symbolic; unaligned lengths 0..17; sequences of 2 messages; arbitrary headers for <= 6 words; Detect on every 0..5 byte prefix; transport.ReadMsg: every 32-bit error word, frames of 0..28 bytes; segmentation: 2 messages of 1..2 words and a four-byte error frame through the real tcpConn wrapper + go-dry CancelableReader (goroutines executed) + real mode, socket reads unsplit / one byte at a time / split at every pair of cut points, and a 127-word first message with cuts inside its long header",
                 "thorough": "word counts 0..40, 100..140, 250..260, 16383..16384; sequences of 3; headers <= 12 words; frames 0..44"},
-        outside="segmentation by real TCP: the stub connection implements the exact-count read contract of tcpConn.Read (io.ReadFull in go-dry CancelableReader), which is assumed, not executed (goroutines + net.Conn); abridged lengths >= 2^24 words; frames longer than the bounds",
-        assumptions=["exact-count read contract for the connection (each Read(p) returns len(p) bytes or an error)"],
+        outside="the kernel's TCP stack itself ((*net.conn).Read/Write are replaced inside the engine by a source that hands out arbitrary segments; more than two cut points except the one-byte-per-read case); read deadlines / timeouts; abridged lengths >= 2^24 words; frames longer than the bounds",
+        assumptions=["mode-level harnesses use a connection with the exact-count read contract; the segmentation harness checks that tcpConn provides it over a socket that returns short reads"],
     ),
     "C04": dict(
         jobs=_c04,
